@@ -172,6 +172,33 @@ theorem consulted_of_hit {σ : Type} {P : Bytes → Option σ} {pre post : List 
     rw [ih (fun x hx => hpre x (List.mem_cons_of_mem _ hx))]
     rfl
 
+theorem consulted_cons {σ : Type} (P : Bytes → Option σ) (q : Bytes) (qs : List Bytes) :
+    consulted P (q :: qs) = if (P q).isSome then [q] else q :: consulted P qs := rfl
+
+/-- `consulted` is exactly the call sequence of a left-to-right `find_map`: the result is the answer to the LAST call,
+every earlier call answered `None` -/
+theorem consulted_faithful {σ : Type} (P : Bytes → Option σ) (ps : List Bytes) :
+    ps.findSome? P = (consulted P ps).getLast?.bind P ∧ ∀ p ∈ (consulted P ps).dropLast, P p = none := by
+  induction ps with
+  | nil => exact ⟨rfl, fun p hp => by cases hp⟩
+  | cons q qs ih =>
+    rw [consulted_cons, List.findSome?_cons]
+    cases hq : P q with
+    | some s => exact ⟨by simp [hq], fun p hp => by simp at hp⟩
+    | none =>
+      simp only [Option.isSome_none, Bool.false_eq_true, if_false]
+      cases hc : consulted P qs with
+      | nil =>
+        rw [hc] at ih
+        exact ⟨by rw [ih.1]; simp [hq], fun p hp => by simp at hp⟩
+      | cons y ys =>
+        rw [hc] at ih
+        rw [List.getLast?_cons_cons, List.dropLast_cons_cons]
+        refine ⟨ih.1, fun p hp => ?_⟩
+        rcases List.mem_cons.mp hp with rfl | hp
+        · exact hq
+        · exact ih.2 p hp
+
 /-- a member of a list of byte strings is a contiguous slice of their concatenation -/
 theorem mem_flatten_slice {ps : List Bytes} {p : Bytes} (h : p ∈ ps) : ∃ pre post, ps.flatten = pre ++ p ++ post := by
   obtain ⟨l1, l2, rfl⟩ := List.append_of_mem h
